@@ -36,6 +36,17 @@ def main(argv=None):
     args = ap.parse_args(argv)
 
     faulthandler.enable()
+    # die with the parent (a killed driver must not leave looping workers behind) and bound the memory
+    try:
+        import ctypes
+        import resource
+        import signal
+
+        ctypes.CDLL("libc.so.6", use_errno=True).prctl(1, signal.SIGKILL)  # PR_SET_PDEATHSIG
+        lim = int(os.environ.get("VERIF_WORKER_MEM_GB", "6")) << 30
+        resource.setrlimit(resource.RLIMIT_AS, (lim, lim))
+    except Exception:  # pragma: no cover
+        pass
     job = json.loads(args.job)
 
     from . import env
